@@ -1,4 +1,4 @@
-\* F6: NoLostTimeout is violated on the code as written (17 steps)
+\* repaired tree: the deadline is re-checked once the coroutine is published
 SPECIFICATION Spec
 CONSTANTS
   Unparkers = {u1, u2}
@@ -8,6 +8,6 @@ CONSTANTS
   WithCancel = TRUE
   CheckCancel = TRUE
   Recheck = TRUE
-  Fix6 = FALSE
+  Fix6 = TRUE
 INVARIANTS NoLostTimeout
 CHECK_DEADLOCK FALSE
